@@ -59,7 +59,11 @@ def batch_rows(n, seed):
     rnd = random.Random(seed)
     extra = [rows[rnd.randrange(len(rows))] for _ in range(min(4, len(rows)))]
     b2 = list(reversed(rows)) + extra
-    return rows, b2
+    # pairwise distinct outcomes, not in ascending order, a proper subset for n >= 2 (nothing to de-duplicate, nothing to sort)
+    b3 = list(reversed(rows))
+    if len(b3) > 2:
+        b3 = [b3[1], b3[0]] + b3[2:-1]
+    return rows, b2, b3
 
 
 def explicit(B, G, n, strings, custom=False, do_rho=True):
@@ -86,7 +90,7 @@ def explicit(B, G, n, strings, custom=False, do_rho=True):
         ud = None
     libdict = ud if ud is not None else st.unitary_dict
     udict = {k: C.unitary_from_tensor(B, v) for k, v in libdict.items()}
-    rows, rows2 = batch_rows(n, 7)
+    rows, rows2, rows3 = batch_rows(n, 7)
     for bs in strings:
         basis = list(bs)
         Ud = dense(O, udict, basis, D)
@@ -102,7 +106,7 @@ def explicit(B, G, n, strings, custom=False, do_rho=True):
             G.eq("rotate_psi[%s][%d].re" % (bs, r), out[0, r], O.re(acc))
             G.eq("rotate_psi[%s][%d].im" % (bs, r), out[1, r], O.im(acc))
         # rotated amplitudes of batches of outcomes
-        for bi, batch in enumerate((rows, rows2)):
+        for bi, batch in enumerate((rows, rows2, rows3)):
             states = C.rows_tensor(B, batch)
             ip = B.scalars(U_.rotate_psi_inner_prod(st, basis, states, psi=psi, **kw))
             G.fact("inner_prod_shape[%s][b%d]" % (bs, bi), ip.shape == (2, len(batch)), ip.shape)
@@ -130,7 +134,7 @@ def explicit(B, G, n, strings, custom=False, do_rho=True):
                 full[r][c] = acc
                 G.eq("rotate_rho[%s][%d,%d].re" % (bs, r, c), out[0, r, c], O.re(acc))
                 G.eq("rotate_rho[%s][%d,%d].im" % (bs, r, c), out[1, r, c], O.im(acc))
-        for bi, batch in enumerate((rows, rows2)):
+        for bi, batch in enumerate((rows, rows2, rows3)):
             states = C.rows_tensor(B, batch)
             pp = B.scalars(U_.rotate_rho_probs(st, basis, states, rho=rho, **kw))
             G.fact("rho_probs_shape[%s][b%d]" % (bs, bi), pp.shape == (len(batch),), pp.shape)
@@ -159,7 +163,7 @@ def two_dictionaries(B, G, n, strings):
     psi = B.tensor(np.stack([pr, pi_]))
     rr, ri = hermitian(B, D)
     rho = B.tensor(np.stack([rr, ri]))
-    rows, rows2 = batch_rows(n, 3)
+    rows, rows2, rows3 = batch_rows(n, 3)
     states = C.rows_tensor(B, rows2)
     space = C.space_tensor(B, n)
     for rnd in range(3):
@@ -171,6 +175,20 @@ def two_dictionaries(B, G, n, strings):
             ip = B.scalars(U_.rotate_psi_inner_prod(st, list(bs), states, psi=psi, unitaries=ud))
             pp = B.scalars(U_.rotate_rho_probs(st, list(bs), states, rho=rho, unitaries=ud))
             full = B.scalars(U_.rotate_psi(st, list(bs), space, psi=psi, unitaries=ud))
+            # the dictionary given in the call decides, also for letters the state's own dictionary defines differently
+            rr_out = B.scalars(U_.rotate_rho(st, list(bs), space, rho=rho, unitaries=ud))
+            for r in range(D):
+                for c in range(D):
+                    acc = O.cplx(O.frac(0))
+                    for i in range(D):
+                        for j in range(D):
+                            acc = acc + Ud[r][i] * O.cplx(rr[i, j], ri[i, j]) * O.conj(Ud[c][j])
+                    G.eq("round%d.rotate_rho[%s][%d,%d].re" % (rnd, bs, r, c), rr_out[0, r, c], O.re(acc))
+                    G.eq("round%d.rotate_rho[%s][%d,%d].im" % (rnd, bs, r, c), rr_out[1, r, c], O.im(acc))
+            ip3 = B.scalars(U_.rotate_psi_inner_prod(st, list(bs), C.rows_tensor(B, rows3), psi=psi, unitaries=ud))
+            for k, row in enumerate(rows3):
+                idx = int("".join(map(str, row)), 2)
+                G.eq("round%d.inner_prod_distinct_unsorted[%s][%d].re" % (rnd, bs, k), ip3[0, k], full[0, idx])
             for k, row in enumerate(rows2):
                 idx = int("".join(map(str, row)), 2)
                 acc = O.cplx(O.frac(0))
@@ -250,7 +268,7 @@ def model(B, G, kind, n, h, a, strings):
     D = 2 ** n
     st, P = C.make_state(B, kind, n, h, a)
     space = C.space_tensor(B, n)
-    rows, rows2 = batch_rows(n, 11)
+    rows, rows2, rows3 = batch_rows(n, 11)
     Z = B.scalars(st.normalization(space)).reshape(-1)[0]
     if kind == "mixed":
         rho = B.scalars(st.rho(space, space))
@@ -268,7 +286,7 @@ def model(B, G, kind, n, h, a, strings):
                     for j in range(D):
                         acc = acc + Ud[r][i] * O.cplx(rho[0, i, j], rho[1, i, j]) * O.conj(Ud[r][j])
                 diag.append(acc)
-            for bi, batch in enumerate((rows, rows2)):
+            for bi, batch in enumerate((rows, rows2, rows3)):
                 states = C.rows_tensor(B, batch)
                 pp = B.scalars(U_.rotate_rho_probs(st, basis, states))
                 tot = O.frac(0)
@@ -312,7 +330,7 @@ def model(B, G, kind, n, h, a, strings):
                 G.eq("model_rotate_psi[%s][%d].im" % (bs, r), out[1, r], O.im(ref[r]))
                 tot = tot + out[0, r] * out[0, r] + out[1, r] * out[1, r]
             G.eq("born_probs_sum_to_Z[%s]" % bs, tot, Z)
-            for bi, batch in enumerate((rows, rows2)):
+            for bi, batch in enumerate((rows, rows2, rows3)):
                 states = C.rows_tensor(B, batch)
                 ip, ipv, vexp = U_.rotate_psi_inner_prod(st, basis, states, include_extras=True, **kw)
                 ip, ipv = B.scalars(ip), B.scalars(ipv)
